@@ -47,6 +47,7 @@ func genC09(tier string, seed uint64, run int) *Scenario {
 	kind := "conc"
 	if race {
 		kind = "race"
+		p["junk"] = 1 // refused calls (undecodable bytes, foreign sender index) overlap the honest ones in every race run
 	}
 	return &Scenario{Check: "C09", Kind: kind, Seed: seed, Run: run, P: p, Sched: SchedConfig{Strategy: "random", PreStart: r.IntN(2) == 0}}
 }
@@ -532,6 +533,12 @@ func driveRace(rc *RunCtx) {
 				e.To = n.Idx
 				jobs = append(jobs, job{n, "junk", &e})
 			}
+			if sc.Int("junk", 0) > 0 && len(infl) > 0 && r.IntN(2) == 0 {
+				// bytes that decode, refused for their sender index: the refusal path of a well-formed message
+				e := *infl[r.IntN(len(infl))]
+				e.To = n.Idx
+				jobs = append(jobs, job{n, "junk-from", &e})
+			}
 		}
 		r.Shuffle(len(jobs), func(i, j int) { jobs[i], jobs[j] = jobs[j], jobs[i] })
 		errs := make([]*tss.Error, len(jobs))
@@ -545,6 +552,9 @@ func driveRace(rc *RunCtx) {
 					errs[i] = j.n.Party.Start()
 				case "deliver", "junk":
 					_, errs[i] = j.n.Party.UpdateFromBytes(j.e.Wire, w.Nodes[j.e.From].PID, j.e.Bcast)
+				case "junk-from":
+					from := w.Nodes[j.e.From].PID
+					_, errs[i] = j.n.Party.UpdateFromBytes(j.e.Wire, &tss.PartyID{MessageWrapper_PartyID: from.MessageWrapper_PartyID, Index: 1000 + from.Index}, j.e.Bcast)
 				case "waiting":
 					// (String()/Running() are not among the entry points the property lists: not called here)
 					_ = j.n.Party.WaitingFor()
@@ -554,7 +564,7 @@ func driveRace(rc *RunCtx) {
 		wg.Wait()
 		total += len(jobs)
 		for i, j := range jobs {
-			if errs[i] != nil && j.kind != "junk" {
+			if errs[i] != nil && !strings.HasPrefix(j.kind, "junk") {
 				rc.Fail("engine-error", "%s on %s returned an error although every message is honest: %s", j.kind, j.n.Name, errString(errs[i]))
 				return
 			}
